@@ -1,6 +1,7 @@
 #!/venv/bin/python
-"""Sensitivity self-test: apply each mutant patch to /repo's working tree, run the property's
-quick check, expect a VIOLATION (exit 1), and restore the tree.  Mutants are (a) the reverse
+"""Sensitivity self-test: apply each mutant patch to a scratch git worktree of /repo (outside /repo and
+/verif, removed afterwards; /repo itself is never touched), run the property's quick check against
+that tree (VERIF_REPO), expect a VIOLATION (exit 1).  Mutants are (a) the reverse
 of every `fix:` commit recorded in known_findings.json and (b) hand-written / sub-agent
 patches under selftest/mutants/ and seeded/*/patch.diff.
 
@@ -26,25 +27,52 @@ def clean_tree():
     return sh('git', '-C', REPO, 'status', '--porcelain', '--untracked-files=no').stdout.strip() == ''
 
 
-def run_mutant(name, pid, patch_text, reverse, runs):
-    assert clean_tree(), '/repo has uncommitted changes'
-    args = ['git', '-C', REPO, 'apply'] + (['-R'] if reverse else []) + ['-']
-    r = subprocess.run(args, input=patch_text, text=True, capture_output=True)
+def run_mutant(name, pid, patch_text, reverse, runs, tier='quick', seed=None, pin=False):
+    base = f"/var/tmp/vwt/{os.getpid()}-{abs(hash((name, pid))) % 10**8}"
+    wt = os.path.join(base, 'repo')          # path contains '/repo/' like the real tree
+    os.makedirs(base, exist_ok=True)
+    r = sh('git', '-C', REPO, 'worktree', 'add', '--detach', wt, 'HEAD')
     if r.returncode != 0:
-        return {'mutant': name, 'property': pid, 'result': 'patch-failed', 'detail': r.stderr[-300:]}
+        return {'mutant': name, 'property': pid, 'result': 'worktree-failed', 'detail': r.stderr[-300:]}
     t0 = time.time()
     try:
-        cmd = [os.path.join(HERE, 'check'), pid, '--no-evidence', '--no-selftest']
+        args = ['git', '-C', wt, 'apply'] + (['-R'] if reverse else []) + ['-']
+        r = subprocess.run(args, input=patch_text, text=True, capture_output=True)
+        if r.returncode != 0:
+            return {'mutant': name, 'property': pid, 'result': 'patch-failed', 'detail': r.stderr[-300:]}
+        cmd = [os.path.join(HERE, 'check'), pid, '--no-evidence', '--no-selftest', '--tier', tier,
+               '--replay-dir', os.path.join(base, 'replays')]
         if runs:
             cmd += ['--runs', str(runs)]
-        c = sh(*cmd, cwd=HERE, timeout=1800)
+        env = dict(os.environ, VERIF_REPO=wt, VERIF_SCRATCH=os.path.join(base, 'scratch'))
+        if seed is not None:
+            env['VERIF_SEED'] = str(seed)
+        c = sh(*cmd, cwd=HERE, timeout=3600, env=env)
         lines = [ln for ln in c.stdout.splitlines() if ln.startswith(('VIOLATION', 'violation detail'))]
         res = 'caught' if c.returncode == 1 and any(ln.startswith('VIOLATION') for ln in lines) else \
             ('MISSED' if c.returncode == 0 else f'harness-exit-{c.returncode}')
-        return {'mutant': name, 'property': pid, 'result': res, 'wall_s': round(time.time() - t0, 1),
-                'detail': [ln[:300] for ln in lines[:3]]}
+        out = {'mutant': name, 'property': pid, 'result': res, 'wall_s': round(time.time() - t0, 1),
+               'detail': [ln[:300] for ln in lines[:3]]}
+        if pin and res == 'caught':
+            # keep the minimised history as a pinned plan: executed by every later batch of this check
+            rp = [ln.split('replay=')[1].strip() for ln in c.stdout.splitlines() if ln.startswith('VIOLATION') and 'replay=' in ln]
+            rp = [r_ for r_ in rp if os.path.exists(r_) and '-determinism-' not in r_]
+            if rp:
+                doc = json.load(open(rp[0]))
+                tag = name.replace('/', '-').replace('.diff', '')
+                dst = os.path.join(HERE, 'pinned', f"{pid}-{tag}.json")
+                os.makedirs(os.path.dirname(dst), exist_ok=True)
+                with open(dst, 'w') as f:
+                    json.dump({'note': f'minimised history that exposes {name} (must be quiet on the unchanged tree)',
+                               'invariant': doc.get('invariant'), 'signature': doc.get('signature'),
+                               'plan': doc['plan']}, f, indent=1, default=repr)
+                out['pinned'] = os.path.basename(dst)
+        return out
     finally:
-        sh('git', '-C', REPO, 'checkout', '--', '.')
+        sh('git', '-C', REPO, 'worktree', 'remove', '--force', wt)
+        import shutil
+        shutil.rmtree(base, ignore_errors=True)
+        sh('git', '-C', REPO, 'worktree', 'prune')
 
 
 def main():
@@ -52,6 +80,11 @@ def main():
     ap.add_argument('--only')
     ap.add_argument('--runs', type=int)
     ap.add_argument('--kinds', default='fix,mutant,seeded')
+    ap.add_argument('--tier', default='quick')
+    ap.add_argument('--seed', type=int)
+    ap.add_argument('--jobs', type=int, default=1)
+    ap.add_argument('--name', help='substring of the mutant name')
+    ap.add_argument('--pin', action='store_true', help='keep the minimised history of every caught mutant under pinned/')
     a = ap.parse_args()
     only = set(a.only.split(',')) if a.only else None
     jobs = []
@@ -76,13 +109,16 @@ def main():
             for pid in meta.get('detected_by', [meta['property']]):
                 jobs.append(('seeded/' + os.path.basename(os.path.dirname(f)), pid, open(f).read(), False))
     out = []
-    for name, pid, diff, rev in jobs:
-        if only and pid not in only:
-            continue
-        r = run_mutant(name, pid, diff, rev, a.runs)
-        print(json.dumps(r))
-        sys.stdout.flush()
-        out.append(r)
+    jobs = [j for j in jobs if (not only or j[1] in only) and (not a.name or a.name in j[0])]
+    from concurrent.futures import ThreadPoolExecutor
+    with ThreadPoolExecutor(a.jobs) as ex:
+        futs = [ex.submit(run_mutant, name, pid, diff, rev, a.runs, a.tier, a.seed, a.pin) for name, pid, diff, rev in jobs]
+        for f in futs:
+            r = f.result()
+            r['tier'] = a.tier
+            print(json.dumps(r))
+            sys.stdout.flush()
+            out.append(r)
     # merge into the recorded results (a partial invocation must not drop the other entries)
     path = os.path.join(HERE, 'selftest', 'sensitivity_result.json')
     merged = {}
